@@ -1279,6 +1279,11 @@ caption_command(vbi_decoder *vbi, struct caption *cc,
 
 		case 12:	/* Erase Displayed Memory	001 c10f  010 1100 */
 // s1, s4: EDM always before EOC
+			/* EIA 608-B Section 7.7, Annex B.7: In text mode the
+			   command is acted upon as appropriate for caption
+			   processing, without terminating text mode. */
+			ch = &cc->channel[chan & 3];
+
 			if (ch->mode != MODE_POP_ON)
 				erase_memory(cc, ch, ch->hidden);
 
@@ -1289,6 +1294,9 @@ caption_command(vbi_decoder *vbi, struct caption *cc,
 
 		case 14:	/* Erase Non-Displayed Memory	001 c10f  010 1110 */
 // not verified
+			/* See Erase Displayed Memory. */
+			ch = &cc->channel[chan & 3];
+
 			if (ch->mode == MODE_POP_ON)
 				erase_memory(cc, ch, ch->hidden);
 
